@@ -392,3 +392,5 @@ def r12_7(cx):
 
 
 RULES = [('R12.1', r12_1), ('R12.2', r12_2), ('R12.3', r12_3), ('R12.4', r12_4), ('R12.5', r12_5), ('R12.6', r12_6), ('R12.7', r12_7)]
+RULES.append(('R12.8', scan_rule(('rough_tlv::decoder::',))))
+FLOORS['R12.8'] = 1
